@@ -346,7 +346,8 @@ class Dataset(Evaluatable[A]):
             self.overloads,
             self.effects,
             self.cache,
-            mix(self.options, options),  # type: ignore
+            # options already pre-set on this dataset cannot be overridden
+            mix(options, self.options),  # type: ignore
             self.default_options,
             self.callback,
         )
